@@ -8,6 +8,7 @@ import copy
 import json
 
 import common
+import crowd
 import pipeline
 import scen
 
@@ -328,6 +329,8 @@ def main(ctx):
     for p in common.pmap(shard, [(ctx.bin, ctx.seed, s, n) for s in range(common.NPROC)]):
         res.merge(p)
     prefix_collision(ctx.bin, res, ctx.seed)
+    for p in common.pmap(crowd.functionaries, [(ctx.bin, ctx.seed, PROP, s, 7 if not ctx.thorough else 42, "authorised") for s in range(4 if not ctx.thorough else common.NPROC)]):
+        res.merge(p)
     twin_rewritten(ctx.bin, res, ctx.seed)
     return common.finish(
         PROP, ctx.tier, ctx.seed, res, t0=ctx.t0,
@@ -337,7 +340,7 @@ def main(ctx):
              "outsider, empty sub-layout, unsigned}; 25% exact-threshold positive controls; non-trivial = link "
              "directory not empty; distinct by SHA-256 of (layout, directory)",
         assumptions=["ground truth of who validly signed what is by construction"],
-        required=["positive_control_accepted", "expect:reject", "observed:reject", "state:valid(unauth)", "state:misfiled",
+        required=["crowd:authorised:one_short_plus_outsiders", "crowd:authorised:exactly_threshold", "crowd:accepted", "crowd:rejected", "positive_control_accepted", "expect:reject", "observed:reject", "state:valid(unauth)", "state:misfiled",
                   "state:flipped", "state:edited", "state:double", "state:cosigned_broken_own", "state:entry_under_unknown_scheme_key", "state:odd_file_name", "state:prefix_collision:control", "state:twin:genuine", "state:twin:rewritten_after_signing", "state:prefix_collision:link_by_the_other_steps_functionary",
                   "decided_by_authorisation_rule", "threshold:0",
                   "threshold:2", "threshold:3"],
